@@ -133,6 +133,8 @@ def render(snap, ws):
             pkgs[n["pkg"]]["aliases"].append({"name": n["name"], "actual": label(nodes[n["actual"]])})
             continue
         t = {"name": n["name"], "command": command_text(snap, n)}
+        if n.get("nocmd"):
+            del t["command"]          # a command-less target (file group): inputs and dependencies only
         if n["deps"]:
             t["dependencies"] = [label(nodes[d]) for d in n["deps"]]
         ins = list(n["ins"]) + ([n["glob"]] if n.get("glob") else [])
@@ -310,7 +312,7 @@ def enc_sources(snap):
             t += ["a"] + enc_label(n) + [str(n["actual"])]
             continue
         ins = resolved_inputs(snap, n)
-        t += ["t"] + enc_label(n) + [hx(command_text(snap, n).encode("latin-1")), hx(n["salt"])]
+        t += ["t"] + enc_label(n) + [hx(b"" if n.get("nocmd") else command_text(snap, n).encode("latin-1")), hx(n["salt"])]
         t += [str(len(ins))] + [hx(p) for p in ins]
         t += [str(len(n["outs"]))]
         for k, p in n["outs"]:
@@ -440,6 +442,8 @@ def gen_snapshot(r, ntargets=None, features=None):
             t["check"] = True
         if f["fail"] and r.chance(1, 4):
             t["beh"] = r.choice(["f", "a"] + ([["s", 0]] if t["outs"] else []))
+        if f.get("timeouts", True) and r.chance(1, 3):
+            t["timeout"] = r.choice(["60s", "5m", "1h"])      # never strikes: the outcome must be that of the same target without it
         nodes.append(t)
         if f["alias"] and r.chance(1, 4):
             tgt = r.below(len(nodes))
